@@ -8,8 +8,8 @@ ASYNC_FORMS = ['await', 'awaitexpr', 'awaitprint', 'gather', 'asyncwith', 'async
 NPTS = {'for': 2, 'if': 2, 'try': 2, 'tryexc': 2, 'semi': 2, 'semiemit': 2, 'multicall': 2, 'asyncwith': 3,
         'asyncfor': 2, 'comment': 0, 'blankprompt': 0, 'directive': 0, 'defhelper': 0, 'defemit': 0, 'defclass': 0,
         'asyncdef': 0, 'badcompile': 0, 'usename': 0, 'useG': 0, 'useshadow': 0, 'delconst': 0, 'hasconst': 0,
-        'decodef2': 2, 'chainexc': 2, 'bgtask': 3, 'useclass': 0, 'trysibling': 2, 'regappend': 0}
-MULTILINE_FORMS = {'bgtask', 'trysibling', 'chainexc', 'for', 'if', 'with', 'try', 'tryexc', 'multiline', 'multicall', 'tq', 'tqprint', 'defhelper',
+        'decodef2': 2, 'chainexc': 2, 'bgtask': 3, 'useclass': 0, 'trysibling': 2, 'regappend': 0, 'keepout': 0, 'const': 0, 'defreprclass': 0, 'reprexpr': 0}
+MULTILINE_FORMS = {'bgtask', 'trysibling', 'chainexc', 'withswap', 'defreprclass', 'for', 'if', 'with', 'try', 'tryexc', 'multiline', 'multicall', 'tq', 'tqprint', 'defhelper',
                    'defemit', 'asyncwith', 'asyncfor', 'asyncdef', 'defclass', 'decoclass', 'decoasync', 'decodef2'}
 # forms in which a point may raise without the doctest's own code handling it
 TB_FORMS = {'expr', 'print', 'emit', 'multiline', 'assign', 'callmod', 'callmod_expr', 'callhelper',
@@ -68,6 +68,8 @@ def gen_steps(rng, cfg, pfx, modname):
     chunk_start = True
     deleted = False
     co_helpers = []         # coroutine functions defined by the doctest itself
+    kept = []               # steps that kept a reference to sys.stdout
+    reprdefs = []
     chunk_semi = False      # a ';' line in the current chunk makes its final expression run in REPL mode
     for i in range(n):
         forms = list(cfg.forms)
@@ -109,6 +111,24 @@ def gen_steps(rng, cfg, pfx, modname):
             if form == 'defhelper' and rng.random() < 0.3:
                 st['deco'] = True
             helpers.append(i)
+        if form == 'writeout' and not kept:
+            form = st['form'] = 'keepout'
+            st['pts'] = []
+        if form == 'reprexpr' and not reprdefs:
+            form = st['form'] = 'defreprclass'
+            st['pts'] = []
+        if form == 'keepout':
+            kept.append(i)
+        if form == 'writeout':
+            st['ref'] = rng.choice(kept)
+        if form == 'defreprclass':
+            reprdefs.append(i)
+            st['ps2'] = False
+        if form == 'reprexpr':
+            st['ref'] = rng.choice(reprdefs)
+            st['pts'] = []
+        if form == 'withswap':
+            st['ps2'] = rng.random() < 0.5
         if form == 'asyncdef':
             co_helpers.append(i)
         if form == 'awaitco':
@@ -133,11 +153,11 @@ def gen_steps(rng, cfg, pfx, modname):
             st['ps2'] = False
         if form == 'coroexpr':
             st['ps2'] = False
-        if cfg.p_inline_dir and form not in W.NOCODE_FORMS and form not in ('tq', 'tqprint', 'bgtask') and rng.random() < cfg.p_inline_dir:
+        if cfg.p_inline_dir and form not in W.NOCODE_FORMS and form not in ('tq', 'tqprint', 'bgtask', 'defreprclass') and rng.random() < cfg.p_inline_dir:
             st['inline'] = rng.choice(HARMLESS_DIRS)
             st['inline_at'] = rng.choice(['first', 'last'])
             chunk_start = True      # an inline directive makes the statement a part of its own
-        if steps and steps[-1]['form'] == 'bgtask' and not steps[-1].get('want'):
+        if steps and steps[-1]['form'] in ('bgtask', 'withswap') and not steps[-1].get('want'):
             # the pending task is cancelled when its part ends: nothing else in that part
             st['sep'] = 'blank'
         if st['sep'] != 'none':
@@ -163,7 +183,7 @@ def gen_steps(rng, cfg, pfx, modname):
                     e['exc'] = e['exc'] % {'modname': modname}
                 if e['msg']:
                     e['msg'] = e['msg'] % W.tok(st['pts'][0])
-                if want == 'tbell' and not e['msg']:
+                if want in ('tbell', 'tbell2') and not e['msg']:
                     want = 'tb'
                 if form == 'chainexc':
                     st['raise_at'] = 1      # the exception that propagates comes from the handler
@@ -315,7 +335,7 @@ def add_skips(rng, steps, unmet='env:SIM_NOT_SET'):
         steps.insert(rng.randint(0, n), block('-'))
         steps.insert(0, block('+'))
     else:
-        cands = [st for st in steps if st['form'] not in W.NOCODE_FORMS and st['form'] not in ('tq', 'tqprint', 'bgtask') and not st.get('inline')]
+        cands = [st for st in steps if st['form'] not in W.NOCODE_FORMS and st['form'] not in ('tq', 'tqprint', 'bgtask', 'defreprclass') and not st.get('inline')]
         for st in rng.sample(cands, min(len(cands), rng.randint(1, 2))):
             st['inline'] = [['+', 'SKIP', None]]
             st['inline_at'] = rng.choice(['first', 'last'])
@@ -364,7 +384,7 @@ def fix_chunk_starts(steps):
         if (w and st['form'] in ('emitop', 'coroexpr') and semi) or (w == 'none' and semi):
             st['sep'] = 'blank'
             semi = False
-        if prev is not None and prev['form'] == 'bgtask' and not prev.get('want') and st.get('sep', 'none') == 'none':
+        if prev is not None and prev['form'] in ('bgtask', 'withswap') and not prev.get('want') and st.get('sep', 'none') == 'none':
             st['sep'] = 'blank'
         if st.get('indent') and (prev is None or not (prev.get('indent') or (prev.get('want') and st.get('sep', 'none') == 'none'))):
             # a deeper column only directly under a want (or continuing one)
